@@ -85,7 +85,9 @@ pub fn conv_case<T: Sc>(rng: &mut Rng, idx: usize) -> (FitCase<T>, Vec<T>, DMatr
         y,
         w,
         wkind: wkind.name(),
-        eps: None,
+        // one fit in six is built with a user threshold far below every singular value of these
+        // well-conditioned families: it must not change anything
+        eps: if idx % 6 == 2 { Some(T::of(if T::WIDTH == 32 { 1e-5 } else { *rng.pick(&[1e-6, 1e-5, 1e-8]) })) } else { None },
         init,
         history: vec![],
         origin: "conv",
